@@ -220,6 +220,90 @@ fn check_padded(dir: &Path, img: &Image, padded: usize, len: u64, open_as: &str,
     let _ = std::fs::remove_dir_all(dir);
 }
 
+/// file `f` of the image replaced by `junk` (a short foreign file); all three must be unchanged after the attempt
+fn check_short(dir: &Path, img: &Image, f: usize, junk: &[u8], open_as: &str, cell: Cell, ctx: &mut Ctx) {
+    let _ = std::fs::remove_dir_all(dir);
+    if img.write(dir, "m").is_err() {
+        ctx.inconclusive.push("cannot write image".into());
+        return;
+    }
+    let names = ["key", "val", "htx"];
+    if std::fs::write(dir.join(format!("m.{}", names[f])), junk).is_err() {
+        ctx.inconclusive.push("cannot write image".into());
+        return;
+    }
+    let before: Vec<Vec<u8>> = names.iter().map(|n| std::fs::read(dir.join(format!("m.{n}"))).unwrap_or_default()).collect();
+    ctx.evaluations += 1;
+    let out = try_open(dir, open_as);
+    judge_attempt(out, &cell, ctx);
+    for (i, n) in names.iter().enumerate() {
+        ctx.count("byte_comparisons", 1);
+        let after = std::fs::read(dir.join(format!("m.{n}"))).unwrap_or_default();
+        if after != before[i] {
+            let fnd = finding(&["C13"], "refused_open_changed_files", 0, format!("{}: the attempt changed m.{n} (length {} -> {})", cell.desc, before[i].len(), after.len()));
+            let st = ctx.classify(fnd);
+            ctx.record_stop(st, None);
+        }
+    }
+    let _ = std::fs::remove_dir_all(dir);
+}
+
+/// an older FileDb of the directory and a handle of the map (opened as its own type, no updates) stay alive while
+/// (1) another FileDb object opens the map as a wrong type, (2) the signature of a file is changed on disk and
+/// another FileDb object opens the map as its own type. Both must be refused; files are compared before the older
+/// handle is dropped.
+fn check_with_live_handle(dir: &Path, img: &Image, ka: &str, kb: &str, ctx: &mut Ctx) {
+    let _ = std::fs::remove_dir_all(dir);
+    if img.write(dir, "m").is_err() {
+        ctx.inconclusive.push("cannot write image".into());
+        return;
+    }
+    let older = guarded(crate::session::STEP_BUDGET_BASE, || -> std::io::Result<(abyssiniandb::filedb::FileDb, Box<dyn super::c11::DynMap>)> {
+        let db = abyssiniandb::open_file(dir)?;
+        let m = open_dyn(&db, ka, "m", &Cfg::small(8))?;
+        Ok((db, m))
+    });
+    let Guard::Ok(Ok(older)) = older else {
+        ctx.inconclusive.push("cannot open the intact map".into());
+        return;
+    };
+    for step in 0..2 {
+        let mut im = img.clone();
+        let (open_as, what) = if step == 0 {
+            (kb, format!("{} map opened as {} while an older handle of the map is alive", type_name(ka), type_name(kb)))
+        } else {
+            // the type signature of the .val file is replaced on disk by another type's
+            im.val[8..16].copy_from_slice(&sig_of(kb));
+            if std::fs::write(dir.join("m.val"), &im.val).is_err() {
+                ctx.inconclusive.push("cannot write image".into());
+                return;
+            }
+            (ka, format!("{} map whose .val got the {} signature on disk while an older handle of the map is alive, opened as {}", type_name(ka), type_name(kb), type_name(ka)))
+        };
+        ctx.evaluations += 1;
+        let out = try_open(dir, open_as);
+        let cell = Cell { desc: what.clone(), signature: format!("live_handle step={step} created={} other={} outcome=accepted", type_name(ka), type_name(kb)) };
+        judge_attempt(out, &cell, ctx);
+        match Image::read(dir, "m") {
+            Ok(after) => {
+                ctx.count("byte_comparisons", 1);
+                if let Some(d) = im.diff(&after) {
+                    let fnd = finding(&["C13"], "refused_open_changed_files", 0, format!("{what}: the attempt changed the files: {d}"));
+                    let st = ctx.classify(fnd);
+                    ctx.record_stop(st, None);
+                }
+            }
+            Err(e) => {
+                let fnd = finding(&["C13"], "refused_open_changed_files", 0, format!("{what}: files unreadable after the attempt: {e}"));
+                let st = ctx.classify(fnd);
+                ctx.record_stop(st, None);
+            }
+        }
+    }
+    drop(older);
+    let _ = std::fs::remove_dir_all(dir);
+}
+
 pub fn run(a: &Args) -> Ctx {
     let mut ctx = Ctx::new("C13", &["C13"], &a.replay_dir, &a.shard_name());
     let mut rng = Rng::new(a.shard_seed() ^ 0xC13);
@@ -436,6 +520,39 @@ pub fn run(a: &Args) -> Ctx {
                     check_padded(&dir, &img, padded, mult << 32, kb, cell, &mut ctx);
                     ctx.count("cells.padded_to_4gib_multiples", 1);
                 }
+            }
+        }
+        // (g) one of the files is a short foreign file (shorter than a header, down to one byte): nothing of this format's
+        // signature can be in it; it must be refused and keep its length and bytes
+        for f in 0..3usize {
+            for len in [1usize, 2, 7, 8, 9, 15, 16, 17, 64, 127] {
+                job += 1;
+                if job % a.nshards != a.shard {
+                    continue;
+                }
+                let names = ["key", "val", "htx"];
+                let junk = crate::util::gen_bytes(len, (job as u32) | 0x100, 1);
+                let cell = Cell {
+                    desc: format!("{} map ({entries} entries) whose .{} is a foreign file of {len} bytes, opened as {}", type_name(ka), names[f], type_name(ka)),
+                    signature: format!("short_foreign_file file={} len={len} type={} outcome=accepted", names[f], type_name(ka)),
+                };
+                check_short(&dir, &img, f, &junk, ka, cell, &mut ctx);
+                ctx.count("cells.short_foreign_files", 1);
+            }
+        }
+        // (h) the same attempts while an older handle of the directory (and of the map, opened rightly) is still alive
+        // in this thread: what a new `open_file` + open decides must come from the files, not from the other handle
+        if entries > 0 {
+            for &kb in KT_NAMES.iter() {
+                if sig_of(ka) == sig_of(kb) {
+                    continue;
+                }
+                job += 1;
+                if job % a.nshards != a.shard {
+                    continue;
+                }
+                check_with_live_handle(&dir, &img, ka, kb, &mut ctx);
+                ctx.count("cells.with_older_live_handle", 1);
             }
         }
         // (c) single-byte mutations of the 16 signature bytes of each file, opened as A
